@@ -203,6 +203,8 @@ def table_spec(dmin=2, dmax=6, nmin=50, nmax=1000, kinds=MARGINALS, constant=Tru
             'constant_cols': draw(st.lists(st.integers(0, d - 1), max_size=min(2, d - 1) if constant else 0, unique=True))
             if constant else [],
             'names': draw(st.sampled_from(['str', 'int', 'mixed', 'rev'])),
+            # row labels of the training table: they carry no information for any model
+            'index': draw(st.sampled_from(['default', 'default', 'default', 'offset', 'shuffled', 'string', 'duplicated'])),
         }
 
     return specs()
@@ -237,7 +239,18 @@ def build_table(spec):
         if j in spec.get('constant_cols', []):
             x = np.full(spec['n'], float(x[0]))
         cols[names[j]] = x
-    return pd.DataFrame(cols), S
+    df = pd.DataFrame(cols)
+    style = spec.get('index', 'default')
+    n = spec['n']
+    if style == 'offset':
+        df.index = pd.RangeIndex(1000, 1000 + n)
+    elif style == 'shuffled':
+        df.index = pd.Index(np.random.RandomState(spec['seed'] + 1).permutation(n))
+    elif style == 'string':
+        df.index = pd.Index(['r%d' % i for i in range(n)], dtype=object)
+    elif style == 'duplicated':
+        df.index = pd.Index(np.arange(n) // 2)
+    return df, S
 
 
 def _pd(S):
